@@ -142,6 +142,10 @@ func (p *listPeer) Do(req *http.Request) (*http.Response, error) {
 		switch p.linkForm {
 		case 1:
 			resp.Header.Set("Link", "<"+req.URL.Scheme+"://"+req.URL.Host+next+">; rel=\"next\"")
+		case 3:
+			resp.Header.Set("Link", "<"+next+">;rel=next")
+		case 4:
+			resp.Header.Set("Link", "<"+next+">; title=\"x\"; REL=\"next\"")
 		default:
 			resp.Header.Set("Link", "<"+next+">; rel=\"next\"")
 		}
@@ -155,7 +159,7 @@ func (p *listPeer) Do(req *http.Request) (*http.Response, error) {
 func VerifC15Repositories() {
 	N := verifrt.Param("N", 3)
 	all := []string{"a", "b/c", "d", "e"}[:N]
-	peer := &listPeer{kind: 0, repos: all, linkForm: verifrt.Choice(3)}
+	peer := &listPeer{kind: 0, repos: all, linkForm: verifrt.Choice(verifrt.Param("LF", 5))}
 	for i := 0; i < N; i++ {
 		peer.maxServe = append(peer.maxServe, 1+verifrt.Choice(N))
 	}
@@ -237,7 +241,7 @@ func VerifC15Referrers() {
 		}
 		all = append(all, d)
 	}
-	peer := &listPeer{kind: 1, refs: all, subject: subject, linkForm: verifrt.Choice(3), srvFilter: verifrt.Bool()}
+	peer := &listPeer{kind: 1, refs: all, subject: subject, linkForm: verifrt.Choice(verifrt.Param("LF", 5)), srvFilter: verifrt.Bool()}
 	for i := 0; i < N; i++ {
 		peer.maxServe = append(peer.maxServe, 1+verifrt.Choice(N))
 	}
